@@ -88,16 +88,33 @@ def run_alloc_null(res, ast):
                 nxt = stmts[idx + 1] if idx + 1 < len(stmts) else None
                 e = nxt["expr"] if nxt is not None and nxt["t"] == "ExprStmt" else None
                 is_test = False
-                if e is not None and e["t"] == "If" and e["else"] is None:
-                    ct = T(ast, path, e["cond"])
-                    is_test = ct in (f"{var}.is_null()", f"{var}==ptr::null_mut()", f"{var}==std::ptr::null_mut()", f"{var}asusize==0")
+                null_block = None
+                import pm
+                if e is not None and e["t"] == "If":
+                    e = pm.canon(e)          # `if !p.is_null() {..} else {D}` -> `if p.is_null() {D} else {..}`
+                    c_ = strip_paren(e["cond"])
+                    if c_["t"] != "Let":
+                        ct = T(ast, path, e["cond"])
+                        is_test = ct in (f"{var}.is_null()", f"{var}==ptr::null_mut()", f"{var}==std::ptr::null_mut()", f"{var}asusize==0")
+                        null_block = e["then"]
+                    elif c_["pat"]["t"] == "PTupleStruct" and c_["pat"]["path"]["name"] == "Some" and e.get("else") is not None and e["else"].get("t") == "BlockExpr" and \
+                            any(pm.match_expr(strip_paren(c_["expr"]), pt) is not None for pt in (f"{var}.as_mut()", f"{var}.as_ref()", f"NonNull::new({var})", f"ptr::NonNull::new({var})")):
+                        # `if let Some(r) = p.as_mut() { .. } else { D }`: the None arm is the null branch
+                        is_test = True
+                        null_block = e["else"]["block"]
+                elif nxt is not None and nxt["t"] == "Local" and nxt.get("else") is not None and nxt.get("init") is not None and nxt["pat"]["t"] == "PTupleStruct" \
+                        and nxt["pat"]["path"]["name"] == "Some" and any(pm.match_expr(strip_paren(nxt["init"]), pt) is not None
+                                                                           for pt in (f"{var}.as_mut()", f"{var}.as_ref()", f"NonNull::new({var})", f"ptr::NonNull::new({var})")):
+                    is_test = True
+                    eb_ = nxt["else"]
+                    null_block = eb_["block"] if eb_.get("t") == "BlockExpr" else eb_
                 res.check(is_test, "ALLOC-NULL", key + "|3-dominates", w,
                           f"{f['name']}: the statement after `let {var} = {fnname}(..)` is not `if {var}.is_null() {{ .. }}`: the pointer can be used before the test"
                           + (f" (found `{ast.src1(path, nxt, 80)}`)" if nxt is not None else ""))
                 # (2) diverging null branch
                 div = False
                 if is_test:
-                    ts = e["then"]["stmts"]
+                    ts = (null_block or {}).get("stmts") or []
                     if ts:
                         last = ts[-1]
                         le = last.get("expr") if last["t"] == "ExprStmt" else None
